@@ -35,6 +35,10 @@ PROPS = {
     "C06": dict(engine="e1", level="exploration"),
     "C07": dict(engine="e1", level="exploration"),
     "C08": dict(engine="e1", level="fault_enumeration", rule="e4", evaluations_counter="crash.states", distinct="states"),
+    "C17": dict(engine="e3", level="exploration", rule="e3-derive"),
+    "C18": dict(engine="e3", level="exploration", rule="e3-encrypt"),
+    "C19": dict(engine="e3", level="exploration", rule="e3-service"),
+    "C20": dict(engine="e3", level="fault_enumeration", rule="e3-crash", evaluations_counter="crash.states", distinct="states"),
 }
 
 ENGINES = {
@@ -44,7 +48,27 @@ ENGINES = {
                      "entropy (seeded crypto/rand.Reader and secp256k1 pool)", "fsync (tmpfs, NoSync)"]),
 }
 
+ENGINES["e3"] = dict(race=False,
+                     real=["wallet.Service", "wallet (deterministic, bip44, xpub, collection)", "kvstorage", "util/file.SaveBinary/SaveJSON/LoadJSON/IsWritable",
+                           "cipher/encrypt (sha256-xor, scrypt-chacha20poly1305-insecure)", "cipher/bip39, bip32, bip44"],
+                     stub=["storage medium: hook H7 routes SaveBinary's writes/removes/renames through the simulated file system, which applies them to a per-run "
+                           "real directory, records each primitive step, injects short-write errors and materialises crash states",
+                           "entropy (seeded)", "wall clock (synctest fake clock)"])
+
 RULES = {
+    "e3-service": "one run = one seeded history of 8-40 wallet-service operations (create of all four types with seeds from a pool of 3 to force duplicates, temporary wallets, "
+                  "new/scan addresses, label, encrypt, decrypt, recover, unload, secret/non-secret updates; wrong passwords, unknown ids, failing callbacks); in half of the runs "
+                  "a disk error with a short write hits a drawn step of a drawn save; after every operation memory is compared with what a fresh NewService loads; "
+                  "distinct = distinct (operation kind, outcome) sequence; non-trivial = at least 3 successful operations",
+    "e3-crash": "one run = one seeded wallet-service or key-value-storage history; for every operation that touches the disk, EVERY prefix of the primitive file operations "
+                "it issued is materialised (before each step, after open(O_TRUNC), each write cut at 1, half, len-1 and a drawn offset, after each step) and a fresh "
+                "service/manager is started on it; evaluations = crash states; distinct = distinct directory images",
+    "e3-derive": "one run = one wallet (deterministic / bip44 with or without passphrase / xpub) driven through 3-20 generate(0,1,2,5; external or change chain) / scan / "
+                 "serialise+reload / lock+unlock operations; after every step its entries are compared with a fresh wallet generating the same total in one batch; "
+                 "non-trivial = at least 3 comparisons",
+    "e3-encrypt": "one run = one wallet (deterministic / bip44 / collection) and cipher: locked form and everything written to the simulated disk scanned for secrets, "
+                  "unlock round trip, wrong passwords, then 6 corruptions of the stored secrets field (bit flips, truncation, length prefix, metadata edits, empty) "
+                  "followed by load + unlock; non-trivial = at least one corruption reached Unlock",
     "e4": "one run = one seeded life-cycle script (database creation, start-up, genesis, 1-6 (thorough 1-12) received blocks, pool injections, refresh, "
           "remove-invalid, announce flush, restarts, forced index/history rebuild) executed on a follower while the file image after every commit is recorded; "
           "then EVERY commit boundary of that script, plus tape-chosen states inside commits (every ordered prefix of the dirty data pages of chosen commits, "
